@@ -21,13 +21,29 @@ SYSTEMS = {
     "s22": dict(A=[[2., 1], [1, 3]], lb=[0., 0], ub=[1., 1]),
 }
 POOL = np.array([[1.0, 1.0], [2.0, 1.5], [5.0, 5.0], [0.5, 2.5], [3.5, 0.25], [0.25, 0.125], [1.5, 3.5], [2.5, 2.0]])
-WPOOL = np.array([[1.0, 1.0], [2.0, 1.0], [1.0, 2.0], [1.0, 1.0], [2.0, 2.0], [1.0, 1.0], [1.0, 2.0], [2.0, 1.0]])
+# the last row (only ever used as the appended sample) carries by far the largest weights of the pool
+WPOOL = np.array([[1.0, 1.0], [2.0, 1.0], [1.0, 2.0], [1.0, 1.0], [2.0, 2.0], [1.0, 1.0], [1.0, 2.0], [8.0, 4.0]])
 OPTIONS = {"plain": dict(baseline=None, W=False), "bl": dict(baseline=[0.5, 0.25], W=False),
            "w": dict(baseline=None, W=True), "blw": dict(baseline=[0.5, 0.25], W=True)}
 MODELS = ["gaussian", "poisson", "excitation", "minimize"]
 
 
-def _call(model, sysd, opt, rows, bsreq, via_estimator=False):
+def _layout(a, layout):
+    """The same values in another memory layout (the abstract rows are what the spec talks about)."""
+    if a is None or layout == "C":
+        return a
+    if layout == "fortran":
+        return np.asfortranarray(a)
+    if layout == "strided":      # every second row / column of a larger buffer, read-only
+        buf = np.full((2 * a.shape[0], 2 * a.shape[1]), 77.0)
+        buf[::2, ::2] = a
+        v = buf[::2, ::2]
+        v.setflags(write=False)
+        return v
+    raise ValueError(layout)
+
+
+def _call(model, sysd, opt, rows, bsreq, layout="C"):
     """Run one fitting call.  Returns (X, Bpred) ."""
     from dreye.api.optimize.lsq_linear import lsq_linear, lsq_linear_excitation, lsq_linear_minimize
     A = np.array(sysd["A"])
@@ -37,6 +53,7 @@ def _call(model, sysd, opt, rows, bsreq, via_estimator=False):
     if bl is not None:
         B = B + bl
     W = WPOOL[rows] if opt["W"] else None
+    B, W = _layout(B, layout), _layout(W, layout)
     kw = dict(lb=lb, ub=ub, W=W, baseline=bl, batch_size=bsreq, return_pred=True)
     if model in ("gaussian", "poisson"):
         X, Bp = lsq_linear(A, B, model=model, **kw)
@@ -66,6 +83,9 @@ def run_job(job):
         calls.append(([base[0]] + base, bsreq, "duplicated"))
         calls.append((base[:1] + base[2:], bsreq, "dropped"))
         calls.append((base + [len(POOL) - 1], bsreq, "appended"))
+    for bsreq in (1, 2, 3, "full"):
+        calls.append((base, bsreq, "fortran"))
+        calls.append((base, bsreq, "strided"))
     for rows, bsreq, kind in calls[part::nparts]:
         N = len(rows)
         del _verif.EVENTS[:]
@@ -73,7 +93,7 @@ def run_job(job):
                     bs_gt_n=(bsreq != "full" and bsreq > N), bs_gt_1=(bsreq == "full" and N > 1) or (bsreq != "full" and bsreq > 1),
                     divides=(bsreq == "full" or N % bsreq == 0))
         try:
-            X, Bp = _call(model, sysd, opt, rows, bsreq)
+            X, Bp = _call(model, sysd, opt, rows, bsreq, layout=kind if kind in ("fortran", "strided") else "C")
             exc = ""
         except Exception as ex:
             exc = type(ex).__name__
@@ -95,7 +115,7 @@ def run_job(job):
             events.append(dict(ev="Raise", exc="BadShapeOrNaN", meta=meta))
             continue
         for k, r in enumerate(rows):
-            clause = "C05.batch-invariance" if kind == "grid" else "C05.row-independence"
+            clause = "C05.batch-invariance" if kind in ("grid", "fortran", "strided") else "C05.row-independence"
             events.append(dict(ev="Row", rid=("B", sysname, optname, model, r), fp=[int(round(v * SCALE)) for v in Bp[k]], clause=clause, meta=meta))
             if sysname == "s22":  # unique optimum: intensities must agree too
                 events.append(dict(ev="Row", rid=("X", sysname, optname, model, r), fp=[int(round(v * SCALE)) for v in X[k]], clause=clause + "-x", meta=meta))
@@ -182,8 +202,11 @@ def replay(ctx, rep):
     m = rep["case"]["call"]
     import_dreye()
     rows = list(range(m["N"]))
+    if m.get("kind") not in ("grid", "fortran", "strided"):
+        print("neighbourhood variant: re-running the check")
+        return run(ctx)
     try:
-        X, Bp = _call(m["model"], SYSTEMS[m["sys"]], OPTIONS[m["opt"]], rows, m["bsreq"])
+        X, Bp = _call(m["model"], SYSTEMS[m["sys"]], OPTIONS[m["opt"]], rows, m["bsreq"], layout=m["kind"] if m["kind"] != "grid" else "C")
         X1, Bp1 = _call(m["model"], SYSTEMS[m["sys"]], OPTIONS[m["opt"]], rows, 1)
         d = float(np.max(np.abs(Bp - Bp1)))
         print("max |Bpred(bs) - Bpred(1)| =", d)
